@@ -649,6 +649,41 @@ theorem map_slotsOf (hdr : List Entry) : (slotsOf hdr).map (·.2) = hdr := by
   rw [this]
   exact List.zipIdx_map_fst _ _
 
+/-- what survives `removeHopByHopEntries` -/
+theorem removeHopByHop_cases (h : List Slot) : ∀ s ∈ removeHopByHopEntries h,
+    s ∈ h ∧ isHopByHop s.2.id = false ∧
+    (has (h.map (·.2)) Id.CONNECTION = true → isMember (getList (h.map (·.2)) Id.CONNECTION) s.2.name = false) := by
+  intro s hs
+  unfold removeHopByHopEntries at hs
+  have hs' := List.mem_filter.1 hs
+  have hhop : isHopByHop s.2.id = false := by simpa using hs'.2
+  have hs4 := hs'.1
+  unfold removeConnectionHeaderEntries at hs4
+  split at hs4
+  · simp only [] at hs4
+    have := List.mem_filter.1 hs4
+    exact ⟨this.1, hhop, fun _ => by simpa using this.2⟩
+  · rename_i hno
+    exact ⟨hs4, hhop, fun hhas => absurd hhas hno⟩
+
+/-- every field of a forwarded 1xx control message (not 101) is a received field that survived `removeHopByHopEntries`, or
+Squid's own `Connection: keep-alive` -/
+theorem buildControlMsg_cases (hdr : List Entry) : ∀ o ∈ buildControlMsg false hdr,
+    (∃ s : Slot, o = toOut s ∧ hdr[s.1]? = some s.2 ∧ isHopByHop s.2.id = false ∧
+      (has hdr Id.CONNECTION = true → isMember (getList hdr Id.CONNECTION) s.2.name = false)) ∨
+    o = own Id.CONNECTION (some keepAliveBytes) := by
+  intro o ho
+  unfold buildControlMsg at ho
+  simp only [Bool.false_and, Bool.false_eq_true, if_false] at ho
+  rcases List.mem_append.1 ho with ho | ho
+  · simp only [List.mem_map] at ho
+    obtain ⟨s, hs, rfl⟩ := ho
+    have hs2 := (List.mem_filter.1 hs).1
+    obtain ⟨hmem, hhop, hconn⟩ := removeHopByHop_cases (slotsOf hdr) s hs2
+    rw [map_slotsOf] at hconn
+    exact Or.inl ⟨s, rfl, mem_slotsOf hdr s hmem, hhop, hconn⟩
+  · exact Or.inr (by simpa using ho)
+
 /-- what survives the deletions at the start of `buildReplyHeader` -/
 theorem replyFilter_cases (rc : RCtx) (hdr : List Entry) : ∀ s ∈ replyFilter rc hdr,
     hdr[s.1]? = some s.2 ∧ isHopByHop s.2.id = false ∧
